@@ -26,6 +26,7 @@ def run(rep):
         for lib in gen_impl.LIBS:
             runs += [["consume", lib, ch, "handles=1", "pending=%d" % (ch or 3)] for ch in ((0, 2) if rep.tier == "quick" else (0, 1, 2, 3))]
     # a reply that takes long (the actor is busy with an earlier call): the caller waits, whatever the runtime and channel kind
+    runs += [["slowreply", lib, ch, "ms=400", "kind=unit"] for lib in gen_impl.LIBS for ch in (0, 2)]
     runs += [["slowreply", lib, ch, "ms=%d" % (5600 if rep.tier == "quick" else 12000)]
              for lib in (("std",) if rep.tier == "quick" else gen_impl.LIBS) for ch in ((0, 1) if rep.tier == "quick" else (0, 1, 2))]
     if PID == "C01":
